@@ -1,0 +1,23 @@
+//go:build verif
+
+package dhcp
+
+// Helpers to observe the window of a lease tear-down (cleanupExpiredLeases, handleRelease,
+// handleDecline) between the removal of the lease from the lease table and the release of its
+// address to the pool, without a marker inside those functions.
+
+// HoldCircuitIndexForVerif takes the circuit-id index lock, ReleaseCircuitIndexForVerif gives it
+// back: while it is held, a lease tear-down that has to delete a circuit-id index entry waits
+// there, i.e. after the lease left the lease table and before its address goes back to the pool.
+func (s *Server) HoldCircuitIndexForVerif()    { s.leasesByCircuitIDMu.Lock() }
+func (s *Server) ReleaseCircuitIndexForVerif() { s.leasesByCircuitIDMu.Unlock() }
+
+// LeaseTableProbeForVerif reports without blocking whether the lease table can be read right now
+// (nobody holds its write lock) and, if so, how many leases it holds.
+func (s *Server) LeaseTableProbeForVerif() (readable bool, leases int) {
+	if !s.leasesMu.TryRLock() {
+		return false, 0
+	}
+	defer s.leasesMu.RUnlock()
+	return true, len(s.leases)
+}
